@@ -286,6 +286,9 @@ def judgeAccepted (env : Env) (s : State) (c : Call) (r : Response) (s' : State)
              else v.check "C03" "C03_whole_inexact" (C03_whole s b p sz)
     let v := if exact then v.check "C09" "C09_askFeeOK" (C09_askFeeOK ct s b p sz r) else v
     let v := v.check "C17" "C17_feesPaidOK" (C17_feesPaidOK ct s b r)
+    -- C09: the fees charged on a fill really go to the fee accounts (same predicate, theorem
+    -- `C17_fees_paid`, no hypothesis)
+    let v := v.check "C09" "C09_feesReachAccounts" (C17_feesPaidOK ct s b r)
     if exact then v.check "C02" "C02_matchOK" (C02_matchOK ct s a b p sz r s')
     else v.check "C02" "C02_matchOK_inexact" (C02_matchOK ct s a b p sz r s')
   | .cancelAsk id =>
